@@ -128,9 +128,18 @@ def mLit (shape : List Nat) (es : List (Idx × Int)) (fill : Int) (prune : Bool)
   if es.all (fun e => decide (InB e.1 shape)) then .ok (COO.build shape es fill false true prune)
   else .error .value                           -- "invalid entry in coordinates array"
 
-def mEw1 (f : Int → Int) (x : COO Int) : Except Err (COO Int) := sparseOf (elemwiseN (fn1 f) [.coo x])
+/-- `_Elemwise.__init__` densifies a 0-d sparse operand (`arg.todense()`): it takes part as a 0-d
+dense array, i.e. with its ELEMENT where an n-d operand contributes its fill value -/
+def operandOf (x : COO Int) : Operand Int := if x.shape = [] then .dense [] [x.get []] else .coo x
+
+/-- with only 0-d operands nothing sparse is left: the result is a 0-d array without stored
+elements whose fill value is the function of the elements -/
+def mEw1 (f : Int → Int) (x : COO Int) : Except Err (COO Int) :=
+  if x.shape = [] then .ok { shape := [], entries := [], fill := f (x.get []) }
+  else sparseOf (elemwiseN (fn1 f) [.coo x])
 def mEw2 (f : Int → Int → Int) (x y : COO Int) : Except Err (COO Int) :=
-  sparseOf (elemwiseN (fn2 f) [.coo x, .coo y])
+  if x.shape = [] ∧ y.shape = [] then .ok { shape := [], entries := [], fill := f (x.get []) (y.get []) }
+  else sparseOf (elemwiseN (fn2 f) [operandOf x, operandOf y])
 
 def mBroadcastTo (x : COO Int) (s : List Nat) : Except Err (COO Int) := x.broadcastTo s
 
@@ -173,12 +182,16 @@ def mExpandDims (x : COO Int) (axis : Int) : Except Err (COO Int) :=
   | .error e => .error e
   | .ok pos => .ok (x.expandDimsCore pos)
 
+/-- `normalize_index` counts the entries and checks the integers first (`IndexError`); a zero slice
+step is met later, in `sanitize_index` (`ValueError`) -/
 def mGetitem (x : COO Int) (idx : List BIx) : Except Err (COO Int) :=
-  if idx.any BIx.zeroStep then .error .value else  -- "slice step cannot be zero"
   match x.getitem (idx.map BIx.toIxE) with
   | .error e => .error e
-  | .ok (.arr r) => .ok r
-  | .ok (.scalar _) => .error .type               -- a scalar, not an array: the program ends here
+  | .ok res =>
+    if idx.any BIx.zeroStep then .error .value      -- "slice step cannot be zero"
+    else match res with
+      | .arr r => .ok r
+      | .scalar _ => .error .type                   -- a scalar, not an array: the program ends here
 
 def mReduce (op : ROp) (x : COO Int) (axes : Option (List Int)) : Except Err (COO Int) :=
   match x.reduce op.toRedOp axes false with
@@ -296,13 +309,17 @@ def sLit (shape : List Nat) (es : List (Idx × Int)) (fill : Int) : Except Err D
           val := fun i => if es.any (fun e => e.1 == i) then ((es.filter (fun e => e.1 == i)).map (·.2)).sum else fill }
   else .error .value
 
+/-- what an operand contributes to the fill value of an element-wise result: its fill value — but
+a 0-d operand is taken as a scalar and contributes its element (the library densifies 0-d operands) -/
+def fillPart (d : Dense) : Int := if d.shape = [] then d.val [] else d.fill
+
 def sEw1 (f : Int → Int) (d : Dense) : Except Err Dense :=
-  .ok { shape := d.shape, val := fun i => f (d.val i), fill := f d.fill }
+  .ok { shape := d.shape, val := fun i => f (d.val i), fill := f (fillPart d) }
 
 def sEw2 (f : Int → Int → Int) (d1 d2 : Dense) : Except Err Dense :=
   match npBroadcast2 d1.shape d2.shape with
   | none => .error .value
-  | some s => .ok { shape := s, fill := f d1.fill d2.fill,
+  | some s => .ok { shape := s, fill := f (fillPart d1) (fillPart d2),
                     val := fun j => f (d1.val (projIdx d1.shape s j)) (d2.val (projIdx d2.shape s j)) }
 
 def sBroadcastTo (d : Dense) (s : List Nat) : Except Err Dense :=
@@ -360,11 +377,11 @@ def sExpandDims (d : Dense) (axis : Int) : Except Err Dense :=
 
 /-- basic indexing: result element `j` reads operand element `Spec.compose n j` -/
 def sGetitem (d : Dense) (idx : List BIx) : Except Err Dense :=
-  if idx.any BIx.zeroStep then .error .value else
   match normalizeIndex (idx.map BIx.toIxE) d.shape with
   | .error e => .error e
   | .ok n =>
-    if Spec.hasOut n then .ok { shape := outShape n false, fill := d.fill, val := fun j => d.val (Spec.compose n j) }
+    if idx.any BIx.zeroStep then .error .value
+    else if Spec.hasOut n then .ok { shape := outShape n false, fill := d.fill, val := fun j => d.val (Spec.compose n j) }
     else .error .type
 
 /-- reductions: `out[j]` aggregates `x[i]` over all `i` with `i[kept[k]] = j[k]` -/
